@@ -14,6 +14,7 @@ import (
 	"path/filepath"
 	"sort"
 	"strings"
+	"sync"
 	"time"
 	"unicode/utf8"
 
@@ -430,6 +431,24 @@ func childFile(b core.Batch, p params, o *core.Obs) {
 		want[i] = data
 		ch.Send(event.New(event.Custom("stamp", i), event.Payload(data), event.SourceAddr(&net.TCPAddr{IP: net.IPv4(10, 9, byte(i>>8), byte(i)), Port: i % 65536})))
 	}
+	// connection handlers run in goroutines of their own and all send to the one channel: the same number of events
+	// again, from 8 senders at once (stamps N..2N-1, payload sizes mixed so that lines of very different length meet)
+	total := 2 * p.N
+	for i := p.N; i < total; i++ {
+		r := core.NewRng(b.Seed, "C05/file-conc", i)
+		want[i] = r.Bytes(r.PickI([]int{0, 1, 7, 60, 300, 2000}))
+	}
+	var wg sync.WaitGroup
+	for g := 0; g < 8; g++ {
+		wg.Add(1)
+		go func(g int) {
+			defer wg.Done()
+			for i := p.N + g; i < total; i += 8 {
+				ch.Send(event.New(event.Custom("stamp", i), event.Payload(want[i]), event.SourceAddr(&net.TCPAddr{IP: net.IPv4(10, 9, byte(i>>8), byte(i)), Port: i % 65536})))
+			}
+		}(g)
+	}
+	wg.Wait()
 	time.Sleep(2500 * time.Millisecond)
 	f, err := os.Open(path)
 	if err != nil {
@@ -470,7 +489,7 @@ func childFile(b core.Batch, p params, o *core.Obs) {
 			ob.bad("file-addr", "stamp %d: source-ip on disk %v", i, m["source-ip"])
 		}
 	}
-	for i := 0; i < p.N; i++ {
+	for i := 0; i < total; i++ {
 		if seen[i] != 1 {
 			ob.bad("file-count", "stamp %d appears %d times on disk", i, seen[i])
 		}
